@@ -147,7 +147,7 @@ func c15DecodeCompare(c *Ctx, t reflect.Type, mk func() interface{}, doc string,
 		serr := stdjson.Unmarshal([]byte(doc), s)
 		ok := (gerr == nil) == (serr == nil) && (gerr != nil || reflect.DeepEqual(g, s))
 		class := ""
-		if !ok && c15HasDepthConflict(reflect.TypeOf(g).Elem()) {
+		if !ok && c15HasDepthConflict(reflect.TypeOf(g).Elem(), true) {
 			class = "C15-embedded-depth"
 		}
 		if !ok && class == "" && c15FoldsToASCII(doc) {
@@ -169,7 +169,7 @@ func c15FoldsToASCII(doc string) bool {
 // c15HasDepthConflict: some JSON name (spelled the same) is reachable through embedded structs at two
 // different depths, or twice at the same depth — the situations in which encoding/json's
 // dominant-field rule decides (finding D15: go-json's duplicate filtering ignores the depth).
-func c15HasDepthConflict(t reflect.Type) bool {
+func c15HasDepthConflict(t reflect.Type, decode bool) bool {
 	seen := map[string][]int{}
 	var walk func(t reflect.Type, depth int)
 	walk = func(t reflect.Type, depth int) {
@@ -203,7 +203,19 @@ func c15HasDepthConflict(t reflect.Type) bool {
 	walk(t, 0)
 	for _, ds := range seen {
 		if len(ds) > 1 {
-			return true
+			// a field of the struct itself (depth 0) hides every deeper one of its name in go-json as in
+			// encoding/json; the finding is about names that occur at embedded levels only
+			top := false
+			for _, d := range ds {
+				if d == 0 {
+					top = true
+				}
+			}
+			// (the decoder's case-insensitive fallback still picks a deeper field: {"x":7} for
+			// struct{ E3; X int }, so for decoding the class keeps those shapes)
+			if !top || decode {
+				return true
+			}
 		}
 	}
 	return false
@@ -218,7 +230,7 @@ func c15EncodeCompare(c *Ctx, v interface{}, label string) {
 	if tt.Kind() == reflect.Ptr {
 		tt = tt.Elem()
 	}
-	if !ok && c15HasDepthConflict(tt) {
+	if !ok && c15HasDepthConflict(tt, false) {
 		class = "C15-embedded-depth"
 	}
 	c.Oracle("encode/"+label, fmt.Sprintf("%T", v), fmt.Sprintf("%s err=%v", g, gerr), fmt.Sprintf("%s err=%v", s, serr), ok, class)
